@@ -167,11 +167,11 @@ static void op_eval(struct arg *a, int n, FILE *out) {
 
 	config_init(&cl);
 	if (config_parse(&cl, confpath, &env) || VECTOR_LENGTH(cl.cl_list) == 0) { fputs("CONFERR", out); return; }
-	fputs("AST", out);
-	dump_expr(out, cl.cl_list[0].expr);
-
 	snprintf(dirpath, sizeof(dirpath), "%s/md/%s", tdir, (const char *)a[2].p);
 	snprintf(fpath, sizeof(fpath), "%s/%s", dirpath, (const char *)a[3].p);
+	fputs("PATH ", out); hexs(out, fpath);
+	fputs(" AST", out);
+	dump_expr(out, cl.cl_list[0].expr);
 	writefile(fpath, &a[1]);
 	dirfd = open(dirpath, O_RDONLY | O_DIRECTORY);
 	msg = message_parse(dirpath, dirfd, (const char *)a[3].p);
@@ -227,7 +227,6 @@ int main(void) {
 	snprintf(p, sizeof(p), "%s/md/cur", tdir); mkdir(p, 0700);
 	snprintf(p, sizeof(p), "%s/yes", tdir); mkdir(p, 0700);
 	setlocale(LC_CTYPE, "");
-	printf("TDIR "); hexs(stdout, tdir); printf("\n"); fflush(stdout);
 	while (getline(&line, &cap, stdin) > 0) {
 		pid_t pid;
 		int status;
